@@ -155,6 +155,11 @@ func loadProjectFromFile(inputFile string, opts *LoaderOptions) (*types.Project,
 		log.Fatal().Err(err).Msgf("Failed to parse %s", inputFile)
 	}
 	if project.DisableEnvExpansion {
+		// decode the raw text into a fresh project: on top of the expanded one every map entry
+		// (process, env_cmds, vars) whose key was changed by the expansion would survive
+		project = &types.Project{
+			LogLength: defaultLogLength,
+		}
 		err = yaml.Unmarshal(yamlFile, project)
 		if err != nil {
 			if opts.IsInternalLoader {
